@@ -495,13 +495,11 @@ GrowStmt == /\ Mode = "behave" /\ ph = "grow"
                THEN /\ \E k \in 1..Len(Stmts) : toks' = toks \o Stmts[k] \o <<NL>>
                     /\ hist' = Append(hist, 0) /\ UNCHANGED <<orig, ph>>
                ELSE /\ ph' = "rewrite" /\ orig' = toks /\ hist' = <<>> /\ UNCHANGED toks
+\* (the random choices are bound by \E over singleton sets so that each is drawn exactly once per step)
 Step == /\ Mode = "behave" /\ ph = "rewrite" /\ Len(hist) < MaxSteps
-        /\ \E k \in 1..Len(Rules) :
-             LET r == Rules[k]
-                 n == RandomElement(0..9999)
-                 p == RandomElement(0..47)
-                 d == RandomElement(0..2)
-             IN /\ (r = "Trivia" => Len(toks) <= 30)            \* trivia makes the program longer: keep it small
+        /\ \E k \in 1..Len(Rules) : \E n \in {RandomElement(0..9999)} : \E p \in {RandomElement(0..47)} : \E d \in {RandomElement(0..2)} :
+             LET r == Rules[k] IN
+                /\ (r = "Trivia" => Len(toks) <= 30)            \* trivia makes the program longer: keep it small
                 /\ Len(SitesOf(toks, Ctx(toks), r)) > 0
                 /\ toks' = ApplyStep(toks, r, n, p, d)
                 /\ hist' = Append(hist, [r |-> r, n |-> n, p |-> p, d |-> d])
